@@ -156,3 +156,7 @@ func ByteFrom(set string) byte { return byte(next()) }
 
 // StringFrom returns a string of n arbitrary bytes among the characters of set.
 func StringFrom(n int, set string) string { return String(n) }
+
+// SymOrderMap makes the iteration order of this one map an arbitrary choice at
+// every iteration (the Go runtime's behaviour); other maps iterate in insertion order.
+func SymOrderMap(m any) {}
